@@ -52,6 +52,7 @@ func init() {
 	c06Obs = eng.NewKind(c, "observed", judgeObs)
 	c06Once = eng.NewKind(c, "once", judgeOnce)
 	c06Compact = eng.NewKind(c, "compact", judgeCompact)
+	c06Preset = eng.NewKind(c, "preset-locals", judgePreset)
 }
 
 var selVals []cval
@@ -353,6 +354,27 @@ func judgeObs(c ObsCase) *eng.Fail {
 	return nil
 }
 
+var c06Preset *eng.Kind[ObsCase]
+
+// judgePreset: E is "formula NUL expected canonical value"; the data map carries $rate = 0.25 and $seen = 'before'.
+func judgePreset(c ObsCase) *eng.Fail {
+	parts := strings.SplitN(c.E, "\x00", 2)
+	if len(parts) != 2 {
+		return eng.F("harness/case", "bad case")
+	}
+	data := selData()
+	data["$rate"], data["$seen"] = 0.25, "before"
+	o, err := evalWith("[("+parts[0]+")]", data)
+	if err != nil || o.panicked || o.err != nil {
+		return eng.F("C06/eval", "%s: %v %v %s", parts[0], err, o.err, o.panicMsg)
+	}
+	if got := show(o.val); got != "["+parts[1]+"]" {
+		return eng.F("C06/unselected-branch-took-effect", "with $rate = 0.25 and $seen = 'before' in the data, %s = %s, expected %s (only a selected branch is evaluated, so only its assignments happen)", parts[0], got, parts[1])
+	}
+	outcome("preset " + parts[1])
+	return nil
+}
+
 var c06Compact *eng.Kind[ObsCase]
 
 // judgeCompact: E holds two spellings of one formula (with and without blanks), separated by NUL.
@@ -546,6 +568,23 @@ func runC06(w *eng.W) {
 			cc := ObsCase{E: pair[0] + "\x00" + pair[1]}
 			w.Sample("compact", cc)
 			c06Compact.Do(w, cc)
+		}
+	}
+	// locals that the caller supplied (or an earlier evaluation left) and assignments in branches that
+	// are not selected: a local is bound only when its assignment is evaluated
+	if w.Take() {
+		for _, c := range []struct{ src, want string }{
+			{"0 ? ($rate = 1) : $rate", "num:0.25"}, {"1 ? $rate : ($rate = 1)", "num:0.25"}, {"$rate = $rate ?? 0.1", "num:0.25"},
+			{"[1 ? 5 : ($seen = 'x'), $seen]", "[num:5,str:\"before\"]"}, {"[$unset ?? 'none', 0 ? ($unset = 1) : 2, $unset]", "[str:\"none\",num:2,null]"},
+			{"$rate ? ($seen = $seen + '!') : ($seen = 'no'), $seen", "str:\"before!\""}, {"[0 ? ($rate = 3) : 4, 1 ? 6 : ($rate = 5), $rate]", "[num:4,num:6,num:0.25]"},
+		} {
+			w.State(1)
+			w.Trans(1)
+			w.Trace(1)
+			w.Note("leg:preset-locals", 1)
+			oc := ObsCase{E: c.src + "\x00" + c.want}
+			w.Sample("preset-locals", oc)
+			c06Preset.Do(w, oc)
 		}
 	}
 	// operands with a side effect: evaluated once, handed back unchanged
